@@ -1,5 +1,6 @@
 (* C11 — Authenticated room API requests of any shape are answered, never fatal.
-   Only statements here; proofs are in proofs/RoomApi_proofs.v, proofs/RoomApi_nobody.v
+   Only statements here; proofs are in proofs/RoomApi_proofs.v, proofs/RoomApi_nobody.v,
+   proofs/RoomApi_elsewhere.v
    (+ Decode_proofs.v, Decode_depth.v).  The model (model/RoomApi.v, [step true]) is the code with
    fixes/C11/01 applied; [step false] is the code as found.
 
@@ -10,7 +11,7 @@
    behind the checksum gate, which is C02's). *)
 From Coq Require Import List ZArith NArith String Bool Lia.
 From Verif Require Import gen.Params gen.Schema lib.Json lib.Decode model.RoomApi corr.Run_C11
-  proofs.Decode_proofs proofs.Decode_depth proofs.RoomApi_proofs proofs.RoomApi_nobody.
+  proofs.Decode_proofs proofs.Decode_depth proofs.RoomApi_proofs proofs.RoomApi_nobody proofs.RoomApi_elsewhere.
 Import ListNotations.
 Open Scope string_scope.
 
@@ -96,8 +97,8 @@ Theorem C11_names_nobody_request_silent : forall st b, names_nobody (known_of st
             step true st b = (st, {| o_reply := Status c; o_exit := false; o_pubs := [] |}).
 Proof. exact names_nobody_silent. Qed.
 
-(* ... in the form the trace predicate P_C11 uses it: [run_known] is the one room session id of
-   the harness fixture; requests never add ids ([after st bs]: the state after the history bs),
+(* ... in the form the trace predicate P_C11 uses it: [run_known] are the room session ids of
+   the two sessions of the harness fixture; requests never add ids ([after st bs]: the state after the history bs),
    and the class only grows when ids disappear.  So at every point of every history from either
    fixture state a request of the class [names_nobody run_known] is silent. *)
 Theorem C11_names_nobody_history_silent : forall ex num bs b, names_nobody run_known b = true ->
@@ -168,6 +169,41 @@ Example C11_nonvacuous_names_nobody :
   events_for wst fixture_sid (o_pubs (snd (step true wst ex_somebody))) = [KParticipants 1].
 Proof. exact ex_nobody_ok. Qed.
 
+(* Sessions ELSEWHERE.  A request for a room can name - by a room session id that resolves - a
+   session that is in another room.  (3a) Only members of a room are ever recorded as being in
+   its call: [call_in_room] (the call list is included in the member list) is kept by every
+   request, repaired or not, hence holds at every point of every history from the fixture states. *)
+Theorem C11_call_members_only : forall fixed st b, call_in_room st -> call_in_room (fst (step fixed st b)).
+Proof. exact step_call. Qed.
+
+Theorem C11_call_members_only_history : forall ex num bs, call_in_room (after (fixture ex num) bs).
+Proof. intros ex num bs. apply after_call. apply fixture_call. Qed.
+
+(* (3b) The consumer of an "incall" request (all not true) whose [changed] entries name only
+   sessions that are not members of the room ([names_elsewhere]: whatever "sessionId" /
+   "sessionid" says - a session of another room, of no room, nobody) leaves members and call
+   state of the room as they are, whatever call state the entries claim. *)
+Theorem C11_elsewhere_entries_change_no_call_state : forall st r ic,
+  call_in_room st ->
+  as_str (fld "Type" r) = "incall" -> deref (fld "InCall" r) = Some ic -> as_bool (fld "All" ic) = false ->
+  (forall u, In u (as_list (fld "Changed" ic)) -> names_elsewhere st u) ->
+  st_incall (c_state (consume st r)) = st_incall st /\
+  st_members (c_state (consume st r)) = st_members st.
+Proof. exact consume_elsewhere. Qed.
+
+(* non-vacuity: the request of seeded change C11-5 (the entry names the session of the other room
+   as "in call", room existing): in no silent class, answered 200, nothing exits, the member of
+   the room gets the participants update, the session elsewhere nothing, nobody is in the call;
+   the same entry for the member puts the member into the call *)
+Example C11_nonvacuous_elsewhere :
+  malformed ex_elsewhere = false /\ names_nobody run_known ex_elsewhere = false /\
+  o_reply (snd (step true wst ex_elsewhere)) = Status 200 /\ o_exit (snd (step true wst ex_elsewhere)) = false /\
+  events_for wst fixture_sid (o_pubs (snd (step true wst ex_elsewhere))) = [KParticipants 1] /\
+  events_for wst fixture_sid2 (o_pubs (snd (step true wst ex_elsewhere))) = [] /\
+  st_incall (fst (step true wst ex_elsewhere)) = [] /\
+  st_incall (fst (step true wst ex_member)) = [fixture_sid].
+Proof. exact ex_elsewhere_ok. Qed.
+
 Print Assumptions C11_schema.
 Print Assumptions C11_answered_never_fatal.
 Print Assumptions C11_history_never_fatal.
@@ -186,3 +222,6 @@ Print Assumptions C11_never_fatal_refuted_unrepaired.
 Print Assumptions C11_witnesses_repaired.
 Print Assumptions C11_decode_wrong_kind_fails.
 Print Assumptions C11_decode_depth.
+Print Assumptions C11_call_members_only.
+Print Assumptions C11_call_members_only_history.
+Print Assumptions C11_elsewhere_entries_change_no_call_state.
